@@ -1370,3 +1370,135 @@ Qed.
 
 Corollary inv_reachable rs : oracles_ok repaired init rs -> RepoInv (run repaired init rs).
 Proof. apply inv_run, inv_init. Qed.
+
+(* ------------------------------------------------------------------ resolve: nothing fails after the checks *)
+
+(* p names a node of repo i whose commit flag is lk *)
+Definition node_state (s : state) (p : string) (i : N) (lk : bool) : Prop :=
+  exists r v n, st_u2v s !! p = Some v /\ st_repo_of s !! p = Some i /\ st_repos s !! i = Some r /\
+                r_nodes r !! v = Some n /\ n_locked n = lk.
+
+Lemma node_state_find s p i lk : node_state s p i lk ->
+  exists r v n, find_node s p = Some (i, r, v, n) /\ n_locked n = lk.
+Proof.
+  intros (r & v & n & H1 & H2 & H3 & H4 & H5). exists r, v, n. unfold find_node.
+  now rewrite H1, H2, H3, H4.
+Qed.
+
+Lemma node_state_u2v s p i lk : node_state s p i lk -> is_Some (st_u2v s !! p).
+Proof. intros (r & v & n & H1 & _). eauto. Qed.
+
+(* the data instances of the repo a UUID belongs to *)
+Definition data_of (s : state) (u : string) : option (list string) := option_map r_data (repo_by_uuid s u).
+
+Lemma upd_nodes_data f r : r_data (upd_nodes f r) = r_data r.
+Proof. reflexivity. Qed.
+
+(* commit: other nodes keep their state, committed nodes stay committed, data untouched *)
+Lemma commit_node_state s u p i lk : RepoInv s -> node_state s p i lk -> (p <> u \/ lk = true) ->
+  node_state (fst (do_commit s u)) p i lk.
+Proof.
+  intros I NS Hcase. unfold do_commit.
+  destruct (find_node s u) as [[[[j r] v] n]|] eqn:F; auto. destruct (n_locked n) eqn:Ln; auto. simpl.
+  apply find_node_spec in F as (Hu & Hj & Hr & Hn).
+  destruct NS as (rp & vp & np & H1 & H2 & H3 & H4 & H5).
+  destruct (decide (i = j)) as [->|Nij].
+  - rewrite Hr in H3. injection H3 as <-.
+    destruct (decide (vp = v)) as [->|Nv].
+    + rewrite Hn in H4. injection H4 as <-.
+      exists (upd_nodes (alter lock_node v) r), v, (lock_node n). simpl.
+      rewrite lookup_alter, Hr. simpl. rewrite lookup_alter, Hn. simpl. repeat split; auto.
+      destruct Hcase as [Hc| ->]; [|congruence]. exfalso. apply Hc.
+      apply (inv_bij s I) in H1. apply (inv_bij s I) in Hu. congruence.
+    + exists (upd_nodes (alter lock_node v) r), vp, np. simpl.
+      rewrite lookup_alter, Hr. simpl. rewrite lookup_alter_ne by auto. auto.
+  - exists rp, vp, np. simpl. rewrite lookup_alter_ne by auto. auto.
+Qed.
+
+Lemma commit_succeeds s u i : RepoInv s -> node_state s u i false ->
+  snd (do_commit s u) = Done tt /\ node_state (fst (do_commit s u)) u i true.
+Proof.
+  intros I NS. destruct (node_state_find s u i false NS) as (r & v & n & F & Ln).
+  unfold do_commit. rewrite F, Ln. simpl. split; auto.
+  apply find_node_spec in F as (Hu & Hj & Hr & Hn).
+  exists (upd_nodes (alter lock_node v) r), v, (lock_node n). simpl.
+  rewrite lookup_alter, Hr. simpl. rewrite lookup_alter, Hn. simpl. auto.
+Qed.
+
+Lemma commit_data s u x : data_of (fst (do_commit s u)) x = data_of s x.
+Proof.
+  unfold do_commit. destruct (find_node s u) as [[[[j r] v] n]|] eqn:F; auto. destruct (n_locked n); auto. simpl.
+  apply find_node_spec in F as (Hu & Hj & Hr & Hn).
+  unfold data_of, repo_by_uuid. simpl. destruct (st_repo_of s !! x) as [k|]; auto.
+  destruct (decide (k = j)) as [->|Nk].
+  - rewrite lookup_alter, Hr. reflexivity.
+  - now rewrite lookup_alter_ne by auto.
+Qed.
+
+Lemma commit_repo_of s u : st_repo_of (fst (do_commit s u)) = st_repo_of s.
+Proof.
+  unfold do_commit. destruct (find_node s u) as [[[[j r] v] n]|]; auto. destruct (n_locked n); auto.
+Qed.
+
+(* newVersion with a generated UUID f: the nodes that exist keep their state *)
+Lemma new_version_node_state fx s par b f p i lk : RepoInv s -> node_state s p i lk -> p <> f ->
+  node_state (fst (do_new_version fx s par b None f)) p i lk.
+Proof.
+  intros I NS Npf. unfold do_new_version.
+  destruct (find_node s par) as [[[[j r] v] n]|] eqn:F; auto. destruct (negb (n_locked n)); auto.
+  match goal with |- context [match ?o with Some _ => _ | None => (s, Fail) end] => destruct o as [b'|] end; auto.
+  destruct (fx_assign_check fx && assign_refused s None); auto.
+  unfold new_uuid. simpl.
+  apply find_node_spec in F as (Hu & Hj & Hr & Hn).
+  destruct NS as (rp & vp & np & H1 & H2 & H3 & H4 & H5).
+  unfold node_state. simpl.
+  set (cv := st_next_v s).
+  assert (Nvp : vp <> cv).
+  { destruct (inv_repo_of s I p i H2) as (R & r0 & v0 & n0 & HR & Hr0 & Hu0 & Hn0).
+    rewrite H3 in Hr0. injection Hr0 as <-. rewrite H1 in Hu0. injection Hu0 as <-.
+    destruct (inv_nodes s I i R rp vp n0 HR H3 Hn0) as [Hv _]. apply (inv_next_v s I) in Hv. unfold cv. lia. }
+  destruct (decide (i = j)) as [->|Nij].
+  - rewrite Hr in H3. injection H3 as <-.
+    destruct (decide (vp = v)) as [->|Nv].
+    + rewrite Hn in H4. injection H4 as <-.
+      eexists _, v, (add_child cv n). rewrite !lookup_insert_ne by auto. rewrite lookup_alter, Hr. simpl.
+      split; [exact H1|]. split; [exact H2|]. split; [reflexivity|]. simpl.
+      rewrite lookup_insert_ne by auto. rewrite lookup_alter, Hn. simpl. auto.
+    + eexists _, vp, np. rewrite !lookup_insert_ne by auto. rewrite lookup_alter, Hr. simpl.
+      split; [exact H1|]. split; [exact H2|]. split; [reflexivity|]. simpl.
+      rewrite lookup_insert_ne, lookup_alter_ne by auto. auto.
+  - exists rp, vp, np. rewrite !lookup_insert_ne by auto. rewrite lookup_alter_ne by auto. auto.
+Qed.
+
+(* ... and the new node is an uncommitted node of the parent's repo *)
+Lemma new_version_new_node fx s par b f cu i : st_repo_of s !! par = Some i ->
+  snd (do_new_version fx s par b None f) = Done cu ->
+  cu = f /\ node_state (fst (do_new_version fx s par b None f)) f i false.
+Proof.
+  intros Hi. unfold do_new_version.
+  destruct (find_node s par) as [[[[j r] v] n]|] eqn:F; [|discriminate].
+  destruct (negb (n_locked n)); [discriminate|].
+  match goal with |- context [match ?o with Some _ => _ | None => (s, Fail) end] => destruct o as [b'|] end; [|discriminate].
+  destruct (fx_assign_check fx && assign_refused s None); [discriminate|].
+  unfold new_uuid. simpl. intros [= <-]. split; auto.
+  apply find_node_spec in F as (Hu & Hj & Hr & Hn). rewrite Hi in Hj. injection Hj as <-.
+  unfold node_state. simpl.
+  eexists _, (st_next_v s), _. rewrite !lookup_insert. rewrite lookup_alter, Hr. simpl.
+  split; [reflexivity|]. split; [reflexivity|]. split; [reflexivity|]. simpl.
+  rewrite lookup_insert. auto.
+Qed.
+
+Lemma new_version_data fx s par b f x : x <> f ->
+  data_of (fst (do_new_version fx s par b None f)) x = data_of s x.
+Proof.
+  intros Nx. unfold do_new_version.
+  destruct (find_node s par) as [[[[j r] v] n]|] eqn:F; auto. destruct (negb (n_locked n)); auto.
+  match goal with |- context [match ?o with Some _ => _ | None => (s, Fail) end] => destruct o as [b'|] end; auto.
+  destruct (fx_assign_check fx && assign_refused s None); auto.
+  unfold new_uuid. simpl. apply find_node_spec in F as (Hu & Hj & Hr & Hn).
+  unfold data_of, repo_by_uuid. simpl. rewrite lookup_insert_ne by auto.
+  destruct (st_repo_of s !! x) as [k|]; auto.
+  destruct (decide (k = j)) as [->|Nk].
+  - rewrite lookup_alter, Hr. reflexivity.
+  - now rewrite lookup_alter_ne by auto.
+Qed.
